@@ -1,6 +1,7 @@
 import Mdns.Lemmas.Sched
-import Mdns.Lemmas.ClientHost
+import Mdns.Lemmas.ClientHostComplete
 import Mdns.Props.C03
+import Mdns.Props.C04
 /-
   C17  Hostname resolution: right addresses, case-insensitive, ends on time.
 
@@ -314,6 +315,277 @@ theorem hremoved_exact (s : State) (now : Nat) (ch : Nat) (host : BList) (addrs 
     a ∈ addrs ↔ ∃ p ∈ s.cache.addr, ∃ e ∈ p.2, e.record.expires ≤ now ∧ e.record.name = host ∧
       e.record.rdata = .addr a.1 a.2.1 a.2.2 :=
   (hremoved_evictAddrPhase s now ch host addrs h).2.2 a
+
+/-! ### (c) `AddressesFound` is complete: a new address of a searched host is reported at once -/
+
+/-- **hfound_complete (step contract, one datagram).**  `handle_response` reads the records
+    `pre ++ r :: post` of a datagram on interface `intf`.  `r` is an A / AAAA record with
+    address `ip` whose name (any letter case) has an open search on channel `ch`, and when its
+    turn comes `add_or_update` reports it as new.  Then an `AddressesFound` for that owner name
+    that lists `ip`, tagged with the receiving interface, goes to `ch` in this very
+    `handle_response`. -/
+theorem hfound_complete (s : State) (now : Nat) (intf : Intf) (m : Wire.Msg) (pre : List Wire.Rec)
+    (r : Wire.Rec) (post : List Wire.Rec) (ch : Nat) (ip : BList) (e : Entry)
+    (hrecs : m.answers ++ m.authorities ++ m.additionals = pre ++ r :: post)
+    (hty : r.ty = 1 ∨ r.ty = 28) (hrd : r.rdata = .a ip ∨ r.rdata = .aaaa ip)
+    (hch : resolverChan s r.name = some ch)
+    (hnew : (addOrUpdate
+        (ingestAll s.queriers intf.name intf.idx now (isForUs s m.answers)
+          { cache := s.cache, timers := [], changes := [], outs := [] } pre).cache
+        intf.name intf.idx (ofWire intf.name intf.idx now r) now (isForUs s m.answers)).result = some (e, true)) :
+    ∃ addrs, Out.event ch (.hfound r.name addrs) ∈ (handleResponse s now intf m).2 ∧
+      (ip, intf.name, intf.idx) ∈ addrs :=
+  hfound_complete_response s now intf m pre r post ch ip e hrecs hty hrd hch hnew
+
+/-- when `add_or_update` reports a record as new: the message is one the daemon takes in
+    (`is_for_us`), and every cached copy of the record (same owner, type, class, cache-flush bit,
+    RDATA and interface) is a withdrawn one (TTL ≤ 1) while the incoming TTL is above 1 - in
+    particular when there is no cached copy -/
+theorem new_when_unknown_or_revived (c : Cache) (ifName : BList) (ifIdx now : Nat) (r : Wire.Rec)
+    (hty : r.ty = 1 ∨ r.ty = 28) (httl : r.ttl > 1)
+    (hrev : ∀ x ∈ (c.addr.get (lower r.name)).getD [],
+      x.record.matchesRec (ofWire ifName ifIdx now r) = true → x.record.ttl ≤ 1) :
+    ∃ e, (addOrUpdate c ifName ifIdx (ofWire ifName ifIdx now r) now true).result = some (e, true) := by
+  obtain ⟨e, he⟩ := addOrUpdate_result_some c ifName ifIdx (ofWire ifName ifIdx now r) now .addr (slotOf_addr hty)
+  refine ⟨e, ?_⟩
+  rw [he]
+  have hflag := C04.revived_is_new (ofWire ifName ifIdx now r) now
+    ((((noteSubtype c (ofWire ifName ifIdx now r) true).table .addr).get (keyOf .addr (ofWire ifName ifIdx now r).name)).getD [])
+    httl (by
+      intro x hx
+      rw [table_noteSubtype] at hx
+      exact hrev x hx)
+  have : isNewFlag = C04.newFlag := rfl
+  rw [this, hflag]
+
+/-- **hfound_complete, first record of a datagram the daemon takes in**: an address that is not
+    cached yet (or cached only as a withdrawn record) for a searched name, TTL above 1 s -/
+theorem hfound_complete_first (s : State) (now : Nat) (intf : Intf) (m : Wire.Msg)
+    (r : Wire.Rec) (post : List Wire.Rec) (ch : Nat) (ip : BList)
+    (hrecs : m.answers ++ m.authorities ++ m.additionals = r :: post)
+    (hfor : isForUs s m.answers = true)
+    (hty : r.ty = 1 ∨ r.ty = 28) (hrd : r.rdata = .a ip ∨ r.rdata = .aaaa ip) (httl : r.ttl > 1)
+    (hch : resolverChan s r.name = some ch)
+    (hrev : ∀ x ∈ (s.cache.addr.get (lower r.name)).getD [],
+      x.record.matchesRec (ofWire intf.name intf.idx now r) = true → x.record.ttl ≤ 1) :
+    ∃ addrs, Out.event ch (.hfound r.name addrs) ∈ (handleResponse s now intf m).2 ∧
+      (ip, intf.name, intf.idx) ∈ addrs := by
+  obtain ⟨e, he⟩ := new_when_unknown_or_revived s.cache intf.name intf.idx now r hty httl hrev
+  exact hfound_complete s now intf m [] r post ch ip e (by simpa using hrecs) hty hrd hch (by
+    rw [hfor]
+    exact he)
+
+/-- ... and the events of a datagram are events of the iteration that reads it -/
+theorem response_outs_in_iter (s : State) (now : Nat) (pkts pre : List Packet) (p : Packet) (post : List Packet)
+    (cmds : List Command) (intf : Intf) (o : Out)
+    (hp : pkts = pre ++ p :: post)
+    (hread : handleRead (ingress s now pre).1 now p = handleResponse (ingress s now pre).1 now intf p.msg)
+    (ho : o ∈ (handleResponse (ingress s now pre).1 now intf p.msg).2) :
+    o ∈ (iter s now pkts cmds).2 :=
+  hfound_complete_iter s now pkts pre p post cmds intf o hp hread ho
+
+/-! ### (d) A and AAAA at once, then at doubling intervals; the time-out ends the search -/
+
+/-- **Start.**  `resolve_hostname(host)` on `ch`: `SearchStarted`, the addresses already cached
+    for the name (one `AddressesFound` per owner name), then ONE query asking A and AAAA for
+    the name as given, with the known answers; the search is filed under the lower-cased name
+    with its deadline `now + timeout`, a timer is armed for the deadline, and any earlier search
+    of that name (any letter case) is replaced. -/
+theorem resolve_starts_client (s : State) (now : Nat) (host : BList) (ch : Nat) (timeout : Option Nat) :
+    (execCommand s now (.resolveHost host ch timeout)).2 =
+      [.event ch .hstarted] ++ ((addressesForHost s.cache host).map fun p => Out.event ch (.hfound p.1 p.2)) ++
+        [sendQuery s.cache now [(host, 1), (host, 28)]] ∧
+    (execCommand s now (.resolveHost host ch timeout)).1.resolvers =
+      (lower host, ch, timeout.map (now + ·)) :: s.resolvers.filter (fun q => q.1 != lower host) ∧
+    (∀ t, timeout = some t → (now + t) ∈ (execCommand s now (.resolveHost host ch timeout)).1.timers) := by
+  refine ⟨?_, execResolveHost_new_resolvers s now host 1 ch timeout, ?_⟩
+  · simp only [execCommand, execResolveHost, Bool.false_and, Bool.false_eq_true, if_false]
+  · intro t ht
+    subst ht
+    simp only [execCommand, execResolveHost, Bool.false_and, Bool.false_eq_true, if_false, Option.map_some]
+    split <;> simp [addRerun]
+
+/-- **First retransmission.**  It is queued for `now + 1 s` with the next delay 2 s - if that
+    instant lies before the deadline - together with its timer; there is never more than this
+    one queued for the name. -/
+theorem resolve_first_rerun (s : State) (now : Nat) (host : BList) (ch : Nat) (timeout : Option Nat) :
+    (execCommand s now (.resolveHost host ch timeout)).1.reruns.filter (isResolveOf (lower host)) =
+      (if (match timeout with | some t => decide (now + 1000 < now + t) | none => true) then
+        [⟨now + 1000, .resolveHost host 2 ch⟩] else []) ∧
+    ((match timeout with | some t => decide (now + 1000 < now + t) | none => true) = true →
+      (now + 1000) ∈ (execCommand s now (.resolveHost host ch timeout)).1.timers) := by
+  have hfil : (s.reruns.filter (fun r => !isResolveOf (lower host) r)).filter (isResolveOf (lower host)) = [] :=
+    Sched.filter_not_self _ _
+  cases timeout with
+  | none =>
+    simp [execCommand, execResolveHost, withinDeadline, addRerun, List.filter_append, isResolveOf,
+      Sched.nextDelay, Sched.MAX_DELAY]
+  | some t =>
+    by_cases hd : now + 1000 < now + t
+    · simp [execCommand, execResolveHost, withinDeadline, addRerun, List.filter_append, isResolveOf,
+        Sched.nextDelay, Sched.MAX_DELAY, hd]
+    · simp [execCommand, execResolveHost, withinDeadline, hfil, hd]
+
+/-- **Retransmission.**  Running the queued `ResolveHostname(host, delay)` while the search is
+    open: `SearchStarted` again (as the code does), ONE query asking A and AAAA with the known
+    answers, and the next run queued `delay` seconds ahead with the delay doubled (capped at
+    one hour, `Sched.nextDelay`) - unless that instant is not before the deadline. -/
+theorem resolve_rerun_open (s : State) (now : Nat) (host : BList) (d ch : Nat)
+    (hopen : s.resolvers.any (·.1 == lower host) = true) :
+    (execRerun s now (.resolveHost host d ch)).2 =
+      [.event ch .hstarted, sendQuery s.cache now [(host, 1), (host, 28)]] ∧
+    (execRerun s now (.resolveHost host d ch)).1.reruns =
+      (if withinDeadline s (lower host) (now + d * 1000) then
+        s.reruns ++ [⟨now + d * 1000, .resolveHost host (Sched.nextDelay d) ch⟩] else s.reruns) ∧
+    (withinDeadline s (lower host) (now + d * 1000) = true →
+      (now + d * 1000) ∈ (execRerun s now (.resolveHost host d ch)).1.timers) := by
+  simp only [execRerun, execResolveHost, hopen, Bool.not_true, Bool.and_false, Bool.false_eq_true, if_false, if_true]
+  refine ⟨by simp, ?_, ?_⟩
+  · split <;> simp [addRerun]
+  · intro h
+    simp [h, addRerun]
+
+/-- ... and once the search is gone (stopped, timed out, replaced by nothing) a queued
+    retransmission does nothing at all -/
+theorem resolve_rerun_closed (s : State) (now : Nat) (host : BList) (d ch : Nat)
+    (hgone : s.resolvers.any (·.1 == lower host) = false) :
+    execRerun s now (.resolveHost host d ch) = (s, []) := by
+  simp [execRerun, execResolveHost, hgone]
+
+/-- `withinDeadline`: no deadline, or strictly before it -/
+theorem withinDeadline_iff (s : State) (key : BList) (next : Nat) :
+    withinDeadline s key next = true ↔
+      ∀ q t, s.resolvers.find? (·.1 == key) = some q → q.2.2 = some t → next < t := by
+  unfold withinDeadline
+  cases hf : s.resolvers.find? (·.1 == key) with
+  | none => simp
+  | some q =>
+    cases hd : q.2.2 with
+    | none =>
+      simp only [Option.bind_some, hd, true_iff]
+      intro q' t hq ht
+      cases hq
+      rw [hd] at ht
+      cases ht
+    | some t =>
+      simp only [Option.bind_some, hd, decide_eq_true_eq]
+      constructor
+      · intro h q' t' hq ht
+        cases hq
+        rw [hd] at ht
+        cases ht
+        exact h
+      · intro h
+        exact h q t rfl hd
+
+/-- **Time-out.**  In the time-out phase of an iteration at `now`: a search whose deadline `t`
+    has been reached (`now ≥ t`) gets `SearchTimeout` immediately followed by `SearchStopped` on
+    its channel and is removed; a search whose deadline has not been reached, or that has
+    none, stays. -/
+theorem timeout_contract_client (s : State) (now : Nat) (key : BList) (ch : Nat) (dl : Option Nat)
+    (h : (key, ch, dl) ∈ s.resolvers) :
+    (∀ t, dl = some t → now ≥ t →
+      [Out.event ch (.htimeout key), Out.event ch (.hstopped key)] <:+: (runTimeouts s now).2 ∧
+      (key, ch, dl) ∉ (runTimeouts s now).1.resolvers) ∧
+    ((∀ t, dl = some t → now < t) → (key, ch, dl) ∈ (runTimeouts s now).1.resolvers) := by
+  refine ⟨?_, ?_⟩
+  · intro t hdl hdue
+    subst hdl
+    refine ⟨?_, ?_⟩
+    · simp only [runTimeouts]
+      obtain ⟨l1, l2, hl⟩ := List.append_of_mem h
+      rw [hl]
+      simp only [List.filter_append, List.filter_cons, hdue, decide_true, if_true, List.flatMap_append,
+        List.flatMap_cons]
+      exact ⟨_, _, by simp only [List.append_assoc]; rfl⟩
+    · simp [runTimeouts, hdue]
+  · intro hnot
+    simp only [runTimeouts, List.mem_filter]
+    refine ⟨h, ?_⟩
+    cases dl with
+    | none => rfl
+    | some t =>
+      have := hnot t rfl
+      simp only []
+      simp
+      omega
+
+/-- every `SearchTimeout` of the time-out phase belongs to a search whose deadline has passed -/
+theorem timeout_only_when_due (s : State) (now : Nat) (ch : Nat) (key : BList)
+    (h : Out.event ch (.htimeout key) ∈ (runTimeouts s now).2) :
+    ∃ t, (key, ch, some t) ∈ s.resolvers ∧ now ≥ t := by
+  simp only [runTimeouts, List.mem_flatMap, List.mem_filter] at h
+  obtain ⟨q, ⟨hq, hdue⟩, hm⟩ := h
+  obtain ⟨k, c, dl⟩ := q
+  simp only [List.mem_cons, Out.event.injEq, Ev.htimeout.injEq, List.not_mem_nil, or_false] at hm
+  rcases hm with ⟨rfl, rfl⟩ | ⟨_, h2⟩
+  · cases dl with
+    | none => simp at hdue
+    | some t => exact ⟨t, hq, by simpa using hdue⟩
+  · cases h2
+
+/-! ### (e) refresh of the addresses while the search is open -/
+
+/-- **Refresh while the search is open.**  In the resolver-refresh phase of an iteration at
+    `now`: for every searched name and every address entry cached under it that has not
+    expired and whose refresh mark (80 % of the TTL; afterwards never again,
+    `Props.C11.resolution_refresh_once`) has been reached, a query for that name - type A for a
+    4-byte address, AAAA otherwise - goes out in this very phase. -/
+theorem refresh_while_open (s : State) (now : Nat) (key : BList) (ch : Nat) (dl : Option Nat) (e : Entry)
+    (ip ifn : BList) (ifi : Nat) (hres : (key, ch, dl) ∈ s.resolvers) (he : e ∈ (s.cache.addr.get key).getD [])
+    (hlive : now < e.record.expires) (hdue : e.record.refresh ≤ now) (hrd : e.record.rdata = .addr ip ifn ifi) :
+    ∃ known, Out.query [(key, if ip.length == 4 then 1 else 28)] known ∈ (refreshResolvers s now).2 := by
+  simp only [refreshResolvers]
+  exact refresh_query_go now key e ip ifn ifi hlive hdue hrd _ _ (List.mem_map.mpr ⟨_, hres, rfl⟩) he
+
+/-- ... and the refresh mark of an address entry is armed as a timer when the entry is stored
+    or renewed (`ingestOne` pushes `expires` and `refresh` of the returned entry), whether or
+    not a browse is active: the wake-up for it is C12's `Props.C12.TimersCover`. -/
+theorem refresh_timer_armed (q : List (BList × Nat)) (ifName : BList) (ifIdx now : Nat) (forUs : Bool) (acc : Ingest)
+    (r : Wire.Rec) (e : Entry) (b : Bool)
+    (h : (addOrUpdate acc.cache ifName ifIdx (ofWire ifName ifIdx now r) now forUs).result = some (e, b)) :
+    e.record.expires ∈ (ingestOne q ifName ifIdx now forUs acc r).timers ∧
+    e.record.refresh ∈ (ingestOne q ifName ifIdx now forUs acc r).timers := by
+  unfold ingestOne
+  simp only [h]
+  cases b
+  · simp
+  · simp only []
+    repeat' split
+    all_goals simp
+
+/-! ### non-vacuity: a search with a time-out, an answer in another letter case, expiry -/
+
+/-- resolve "H." for 3.5 s at 1000: A + AAAA at 1000, 2000, 4000 (the run at 8000 would not be
+    before the deadline 4500 and is not queued); the address of "h." arrives at 1500 and is
+    reported at once; time-out then stop at 4500.  Codes: 1 = the query A + AAAA for "H.",
+    2 = `AddressesFound("h.", [10.0.0.1 on interface 2])`, 3 = `SearchTimeout`, 4 = `SearchStopped`
+    (all on channel 7), 0 = anything else. -/
+example :
+    ((run (init 1000 [C03.eth0])
+        [(1000, [], [.resolveHost hostH 7 (some 3500)]), (1500, [addrPkt hostLower 120 [10, 0, 0, 1]], []),
+         (2000, [], []), (4000, [], []), (4500, [], []), (8000, [], [])]).2.filterMap
+        fun o => (match o.2 with
+          | .query qs _ => some (o.1, if qs == [(hostH, 1), (hostH, 28)] then 1 else 0)
+          | .event 7 (.hfound h a) => some (o.1, if h == hostLower && a == [([10, 0, 0, 1], [0x65], 2)] then 2 else 0)
+          | .event 7 (.htimeout h) => some (o.1, if h == hostLower then 3 else 0)
+          | .event 7 (.hstopped h) => some (o.1, if h == hostLower then 4 else 0)
+          | .event _ .hstarted => none
+          | _ => some (o.1, 0) : Option (Nat × Nat))) =
+      [(1000, 1), (1500, 2), (2000, 1), (4000, 1), (4500, 3), (4500, 4)] := by decide
+
+/-- an address with TTL 10 s received at 1500 while the search is open: one refresh query
+    (type A for "h.", code 1) at the 80 % mark 9500, none at 10000, `AddressesRemoved` with that
+    address (code 2) at the expiry 11500 -/
+example :
+    ((run (init 1000 [C03.eth0])
+        [(1000, [], [.resolveHost hostH 7 none]), (1500, [addrPkt hostLower 10 [10, 0, 0, 1]], []),
+         (9500, [], []), (10000, [], []), (11500, [], [])]).2.filterMap
+        fun o => (match o.2 with
+          | .query [(n, 1)] _ => some (o.1, if n == hostLower then 1 else 0)
+          | .event 7 (.hremoved h a) => some (o.1, if h == hostLower && a == [([10, 0, 0, 1], [0x65], 2)] then 2 else 0)
+          | _ => none : Option (Nat × Nat))) =
+      [(9500, 1), (11500, 2)] := by decide
 
 end ClientModel
 
